@@ -99,3 +99,29 @@ Theorem C18_consecutive_downloads_offer_the_control_session : forall paths rs,
     repeat (if c_resume (w_cfg w) then Some (w_sess_id w) else None) (length paths).
 Proof. exact consecutive_tls_downloads_offer_the_control_session. Qed.
 Print Assumptions C18_consecutive_downloads_offer_the_control_session.
+
+From LibFtp Require Import Reuse_Global.
+(* ------------------------------------------------------------------ every call, every history, every state, every server *)
+(* [okre resume cur tr]: along the events tr, with [cur] the session of the control connection (set by each successful
+   handshake of the control connection, gone when that connection is closed, replaced or switched back to plain), every TLS
+   handshake of a data connection ([EData (DHandshake off _)]) offers [Some cur] when the context has session resumption and
+   nothing otherwise - whatever the method, the operation, the number of transfers, the reconnects and the answers of the
+   server. (What OpenSSL then does with the offer is observed by the peer: see the recorded TLS 1.3 finding.) *)
+Theorem C18_every_data_handshake_offers_the_control_session : forall a w,
+  exists tr, w_trace (snd (step w a)) = w_trace w ++ tr /\ okre (c_resume (w_cfg w)) (w_sess_id w) tr.
+Proof. exact step_offers_the_control_session. Qed.
+Print Assumptions C18_every_data_handshake_offers_the_control_session.
+
+Theorem C18_every_history_offers_the_control_session : forall cs w,
+  exists tr, w_trace (snd (steps w cs)) = w_trace w ++ tr /\ okre (c_resume (w_cfg w)) (w_sess_id w) tr.
+Proof. exact history_offers_the_control_session. Qed.
+Print Assumptions C18_every_history_offers_the_control_session.
+
+Example C18_reuse_example :
+  let w0 := init_world (mkConfig Passive true TBinary true true) reuse_script in
+  let tr := w_trace (snd (steps w0 [AConnect [104%N] 21%N None; ADownload [102%N] None None; ADownload [102%N] None None;
+                                    ADisconnect true; AConnect [104%N] 21%N None; ADownload [102%N] None None])) in
+  okre true O tr /\
+  map (fun e => match e with EData (DHandshake off _) => off | _ => None end)
+      (filter (fun e => match e with EData (DHandshake _ _) => true | _ => false end) tr) = [Some 1%nat; Some 1%nat; Some 2%nat].
+Proof. exact reuse_example. Qed.
